@@ -257,6 +257,11 @@ def gen_case(rng, pid, tier):
                             '/placement/%s/%s#%010d' % (host_name(rng.randint(1, n)), APP, rng.choice(list(cur)))])
             if rng.random() < 0.5:
                 ops.append(['envput', p, rng.choice(['', 'host9', 'junk'])])
+                import random as _random3
+                r3 = _random3.Random(repr(rng.getstate()[1][:4]))
+                if r3.random() < 0.3:
+                    # (side stream) a node somebody else keeps for one of OUR hosts (payload = that host's name)
+                    ops[-1][2] = host_name(r3.randint(1, n))
             else:
                 ops.append(['envdel', p])
     for i in range(n):
@@ -398,6 +403,14 @@ def run_impl(case, pid):
             return
         site = req['site']
         window = flags.get('window', False)
+        if req['kind'] == 'sync':
+            # the start-up `synchronize()` of a restarted service: whatever it does, it never modifies or deletes a
+            # node it does not own (registered for a container of another session, or nobody's)
+            if kind in ('set', 'delete') and (before.owner is None or before.owner != client.session):
+                run.hits.append(fw.Hit(clause='sync-touched-foreign-node', call_site=site,
+                                       detail='%s of %s (owner %r, data %r) by the restarted service of session %s' % (
+                                           kind, path, before.owner, before.data, client.session)))
+            return
         if req['kind'] in ('create', 'delete'):
             if not window and kind in ('set', 'delete') and before.owner is not None and before.owner != client.session \
                     and before.owner in server.live:
@@ -562,6 +575,14 @@ def run_impl(case, pid):
             _mk_service(proc, server, on_retry)      # the process restarted
             proc.res = 'aborted' if was_busy else '-'
         emit('expire %d %d' % (proc.idx, keep))
+        if not keep:
+            # the base service's start-up protocol ends with `synchronize()` (no ZooKeeper call in this service:
+            # the model has no step for it; any call it makes shows as an unexpected step and is judged above)
+            res_before = proc.res
+            start(proc, {'kind': 'sync', 'site': 'PresenceResourceService.synchronize'}, proc.svc.synchronize)
+            _run_to_idle(proc, step, emit)
+            proc.res = res_before
+            run.tags.add('restart-synchronize')
 
     def pub_advance(proc):
         """Run the tracked calls of a `publish` request (placement check, listing, delete) without pausing;
